@@ -69,7 +69,7 @@ fn prefix_cases(fe: &Frontend, text: &str, config: &ConfigSpec, out: &mut Vec<Do
 }
 
 pub fn run(run: &mut Run) {
-    run.rule = "generated: G-FRONTEND (28 language ids x wrappers) x G-TEXT/G-MARKUP/G-PROGRAM/fixture documents (30% truncated at a random char with tail '', ' ' or '\\n') x G-CONFIG x 4 dialects; prefix closure: every char-boundary prefix x 3 tails of harvested rule sentences (<=160 chars) per front-end; scaling families u^n up to 32k chars with a CPU-time growth bound. Non-trivial = >=1 lint produced, or text ends mid-construct, or contains a multi-byte char; distinct by (front-end, text).".into();
+    run.rule = "generated: G-FRONTEND (28 language ids x wrappers) x G-TEXT/G-MARKUP/G-PROGRAM/fixture documents (30% truncated at a random char with tail '', ' ' or '\\n') x G-CONFIG x 4 dialects; prefix closure: every char-boundary prefix x 3 tails of harvested rule sentences (<=160 chars) per front-end; scaling families u^n up to 32k chars and nesting families with a CPU-time growth bound; single constructs (fraction digits, integer digits, a word, URL path, e-mail local part, host label, hex digits, spaces, dots, hyphens, inline code, link text, heading marks, a comment word, an attribute) of 70,000 (thorough: also 300,000) characters. Non-trivial = >=1 lint produced, or text ends mid-construct, or contains a multi-byte char; distinct by (front-end, text).".into();
     run.assumptions.push("cases run on threads with a 2 MiB stack (tokio worker default) plus harness headroom; a stack overflow kills the child process and is reported by the supervisor".into());
     run.assumptions.push(format!("Typst inputs with bracket nesting deeper than {TYPST_MAX_DEPTH} are excluded by construction (open known finding KF-C01-typst-deep-nesting)"));
 
@@ -116,6 +116,36 @@ pub fn run(run: &mut Run) {
 
     // 3. scaling families
     super::c01_scaling::run_scaling(run);
+
+    // 4. single tokens far longer than any buffer or counter the code may have sized for them:
+    // one construct of 70,000 and 300,000 characters inside an ordinary sentence
+    let mut big = vec![];
+    let sizes: &[usize] = if run.tier == crate::core::Tier::Quick { &[70_000] } else { &[70_000, 300_000] };
+    for &n in sizes {
+        let shapes: Vec<(&str, String)> = vec![
+            ("plaintext", format!("It cost 1.{}$ and took 0.{} day.", "0".repeat(n), "5".repeat(n))),
+            ("plaintext", format!("It cost ${}.5 in all, the {}th time.", "9".repeat(n), "1".repeat(n))),
+            ("plaintext", format!("The word {} is long.", "a".repeat(n))),
+            ("plaintext", format!("See https://example.com/{} now.", "p".repeat(n))),
+            ("plaintext", format!("Mail {}@example.com today.", "m".repeat(n))),
+            ("plaintext", format!("Visit {}.example.com soon.", "h".repeat(n))),
+            ("plaintext", format!("The value 0x{} is hex.", "F".repeat(n))),
+            ("plaintext", format!("A gap{}here.", " ".repeat(n))),
+            ("plaintext", format!("Wait{} what.", ".".repeat(n))),
+            ("plaintext", format!("Well{}then.", "-".repeat(n))),
+            ("markdown", format!("Some `{}` code and a [{}](x) link.", "c".repeat(n), "t".repeat(n))),
+            ("markdown", format!("{} Heading", "#".repeat(n))),
+            ("rust", format!("// {}\nfn main() {{}}\n", "w".repeat(n))),
+            ("html", format!("<p title=\"{}\">text {}</p>", "q".repeat(n), "z".repeat(n))),
+        ];
+        for (lang, text) in shapes {
+            big.push(DocCase { fe: Frontend::of(lang), text, config: ConfigSpec::curated(), dialect: 0 });
+        }
+    }
+    let saved = run.deadline_ms;
+    run.deadline_ms = 600_000;
+    run.enumerate("very_long_tokens", &big, false, test_case);
+    run.deadline_ms = saved;
 }
 
 /// Replay the witnesses of the open known findings (prints KNOWN-FINDING when they still fail
